@@ -166,19 +166,18 @@ structure WritableState where
   deriving Repr
 
 /-- `XmlSerializer::render_output` restricted to what can fail with `MissingPrefix`:
-    `StartTagOpen` pushes the declarations, refuses an element in no namespace under a default
-    namespace, and needs `element_fullname`; every `Attribute` needs `attribute_fullname`;
-    `EndTag` pops. -/
+    `StartTagOpen` pushes the declarations and needs `element_fullname`, every `Attribute`
+    needs `attribute_fullname`, `EndTag` pops. -/
 def writableStep (env : Env) (st : WritableState) : ScopeEdge → WritableState
   | .start _ t =>
     match t.value with
     | .element name =>
       let fs := st.fs.push t.nsDecls
-      -- an element in no namespace is refused where a default namespace is in scope
-      let okD := !(env.nsOfName name == Env.noNamespace && fs.hasDefaultNamespace)
-      let okE := exceptIsOk (fs.elementFullname env name)
+      -- a no-namespace element in the scope of a default namespace is refused (`MissingPrefix("")`)
+      let okE := !(env.nsOfName name == Env.noNamespace && fs.hasDefaultNamespace) &&
+        exceptIsOk (fs.elementFullname env name)
       let okA := (t.attrs.map (·.1)).all (fun n => exceptIsOk (fs.attributeFullname env n))
-      { fs := fs, ok := st.ok && okD && okE && okA }
+      { fs := fs, ok := st.ok && okE && okA }
     | _ => st
   | .stop _ t =>
     if t.value.isElement then { st with fs := st.fs.pop (hasNamespaceDeclarations t) } else st
